@@ -8,3 +8,4 @@ import Helm.Props.C13
 #print axioms Helm.Props.C13.flag_precedence
 #print axioms Helm.Props.C13.rollback_restores
 #print axioms Helm.Props.C13.reuse_without_new_values
+#print axioms Helm.Props.C13.carry_over_flags_bound
